@@ -30,6 +30,8 @@ Mesh(k) ==
     [] k = "mix3"   -> [rows |-> <<<<1,1>>,<<1,2>>,<<1,3>>,<<1,4>>,<<1,5>>,<<1,6>>, <<2,1>>,<<2,2>>,<<2,3>>,<<2,7>>,
                                    <<3,1>>,<<3,2>>,<<3,3>>,<<3,4>>,<<3,5>>,<<3,6>>,<<3,8>>,<<3,9>>>>, z3 |-> TRUE]                  \* wedge6 (lowest id) + tet4 + hex8: the first element has the MEAN node count
     [] k = "thin10" -> [rows |-> <<<<5,1>>,<<5,2>>,<<5,3>>,<<5,4>>,<<5,5>>,<<5,6>>,<<5,7>>,<<5,8>>,<<5,9>>,<<5,10>>>>, z3 |-> TRUE]  \* tet10 whose z extent is tiny compared with |z| (z in [1000, 1000.004])
+    [] k = "tri2dxy" -> [rows |-> <<<<3,11>>,<<3,12>>,<<3,13>>,<<4,12>>,<<4,13>>,<<4,14>>>>, z3 |-> FALSE]       \* 2-D mesh whose frame has no z column at all (the frame layout is not part of the abstract state: coordinates are named, not positional)
+    [] k = "tetzyx" -> [rows |-> <<<<8,21>>,<<8,22>>,<<8,23>>,<<8,24>>>>, z3 |-> TRUE]                                  \* tet4 whose frame stores the coordinate columns in the order z, y, x between variable columns
     [] k = "bigid"  -> [rows |-> <<<<2000000001,1>>,<<2000000001,2>>,<<2000000001,3>>,<<2000000001,4>>>>, z3 |-> TRUE]          \* stands for element id 3000000000 (outside int32; TLC integers are 32 bit)
     [] k = "bad5"   -> [rows |-> <<<<1,1>>,<<1,2>>,<<1,3>>,<<1,4>>,<<1,5>>>>, z3 |-> TRUE]                                        \* no 5-node element type
 Supported == {<<2,3>>, <<2,6>>, <<2,4>>, <<2,8>>, <<3,4>>, <<3,10>>, <<3,6>>, <<3,15>>, <<3,8>>, <<3,20>>}
@@ -122,7 +124,7 @@ RoundTripMesh == \A g \in GeomNames : geoms[g].mesh # "none" => ImportIndex(geom
 RoundTripVariables == \A x \in vars : x.v \in {"STRESS_CAUCHY", "STRESS_LC2"} => {x.data[i] : i \in 1..Len(x.data)} = ElementNodalD(x.mesh)
 NoPartial == [][(~lastOk') => (geoms' = geoms /\ sets' = sets /\ vars' = vars)]_vs
 (* every valid mesh can be exported, whatever was exported before (history independence) *)
-ValidMeshes == {"tri2d", "quad2d", "tet", "tetmix", "mixed", "mix3", "thin10"}
+ValidMeshes == {"tri2d", "quad2d", "tet", "tetmix", "mixed", "mix3", "thin10", "tri2dxy", "tetzyx"}
 ValidMeshAccepted == [][\A g \in GeomNames, k \in ValidMeshes \cap MeshIds :
                           (hist' = Append(hist, <<"add_geometry", g, k>>) /\ geoms[g].mesh = "none") => lastOk']_vs
 =============================================================================
